@@ -111,11 +111,20 @@ type tType struct{}
 // T is the true value.
 var T = tType{}
 
-type wildType struct{}
+type wildType struct{ falsy bool }
 
-// Wild is a value the reference does not pin down (e.g. what ignore-errors
-// returns after it caught an error); comparisons must accept anything.
+// Wild is a value the reference does not pin down; comparisons must accept anything.
 var Wild = wildType{}
+
+// WildFalse is what ignore-errors yields after it caught an error: (values nil condition). As the result of a
+// program it is not pinned down (a Wild), as a test (and, or, if, ...) it counts as its primary value nil.
+var WildFalse = wildType{falsy: true}
+
+// IsWild reports whether v is a value that comparisons must not pin down.
+func IsWild(v Value) bool {
+	_, ok := v.(wildType)
+	return ok
+}
 
 // Closure is a function value.
 type Closure struct {
@@ -176,12 +185,23 @@ func Show(v Value) string {
 		return "#<file-stream>"
 	case *Condition:
 		return "#<" + t.Class + ">"
+	case *Opaque:
+		return "#<" + t.Kind + ">"
+	case *Package:
+		return "#<package>"
+	case *Instance:
+		return "#<instance>"
+	case multi:
+		return Show(primary(t))
 	}
 	return fmt.Sprintf("#<?%T>", v)
 }
 
 func truthy(v Value) bool {
 	if v == nil {
+		return false
+	}
+	if w, ok := v.(wildType); ok && w.falsy {
 		return false
 	}
 	if l, ok := v.([]Value); ok && len(l) == 0 {
@@ -228,6 +248,19 @@ type Mutations struct {
 	CleanupContinuesAfterError bool
 	// LetSequential: let binds like let* (not an exit bug; used by C01-like checks).
 	LetSequential bool
+	// SwallowIn: the body of the named form (more.go: case, ecase, typecase, etypecase, and, or, prog1, prog2,
+	// multiple-value-prog1, progv, multiple-value-bind, with-slots, with-output-to-string, ...) swallows a
+	// return-from / return / go that passes through it and carries on with its next body form.
+	SwallowIn string
+	// DropsGo: the named iteration form (do*, loop, dovector, do-symbols, do-external-symbols, prog, prog*)
+	// drops a go that leaves through it to an outer tagbody and carries on with its next statement.
+	DropsGo string
+	// CleanupExitIgnored: a return-from / return / go evaluated inside a cleanup form that would leave the
+	// unwind-protect is discarded, the remaining cleanup forms run and whatever was in flight continues.
+	CleanupExitIgnored bool
+	// CleanupExitRerunsCleanup: when a cleanup form leaves the unwind-protect by return-from / return / go,
+	// the cleanup forms are started a second time.
+	CleanupExitRerunsCleanup bool
 }
 
 // ---------------------------------------------------------------- interpreter
@@ -279,6 +312,7 @@ type Interp struct {
 	global  *env
 
 	postponed []postponedCleanup // only used by Mutations.CleanupOuterFirst
+	whoppers  []whopFrame        // more.go: send / continue-whopper
 }
 
 type postponedCleanup struct {
@@ -466,6 +500,9 @@ func (in *Interp) evalList(l List, e *env) Value {
 		in.signal("program-error", "illegal function call")
 	}
 	args := l[1:]
+	if v, ok := in.evalMore(strings.ToLower(string(head)), args, e); ok {
+		return v // the forms of more.go
+	}
 	switch strings.ToLower(string(head)) {
 	case "quote":
 		return quoteValue(args[0])
@@ -845,6 +882,12 @@ func (in *Interp) runCleanup(cleanup []Node, e *env, leaving any) {
 		}
 		c2, isErr := r2.(*Condition)
 		if !isErr {
+			switch r2.(type) {
+			case *blockExit, *goExit:
+				if in.Mut.CleanupExitRerunsCleanup {
+					in.progn(cleanup, e) // leaves again at the same form
+				}
+			}
 			panic(r2)
 		}
 		if c1, inFlight := leaving.(*Condition); inFlight {
@@ -854,6 +897,12 @@ func (in *Interp) runCleanup(cleanup []Node, e *env, leaving any) {
 		}
 		panic(c2)
 	}()
+	if in.Mut.CleanupExitIgnored {
+		for _, f := range cleanup {
+			in.swallowExit(f, e)
+		}
+		return
+	}
 	if in.Mut.CleanupContinuesAfterError {
 		var first any
 		for _, f := range cleanup {
@@ -925,7 +974,7 @@ func (in *Interp) doLoop(star bool, args List, e *env) Value {
 			if truthy(in.eval(end[0], ne)) {
 				return in.progn(end[1:], ne)
 			}
-			in.tagbody(args[2:], ne)
+			in.loopBody(map[bool]string{false: "do", true: "do*"}[star], args[2:], ne)
 			if star {
 				for _, st := range steps {
 					if st.has {
@@ -952,7 +1001,7 @@ func (in *Interp) ignoreErrors(body []Node, e *env) (v Value) {
 	defer func() {
 		if r := recover(); r != nil {
 			if _, ok := r.(*Condition); ok {
-				v = Wild // (values nil condition): the primary value is not pinned down here
+				v = WildFalse // (values nil condition)
 				return
 			}
 			panic(r)
